@@ -102,9 +102,9 @@ CLAIMED = {
    design="§7 C05"),
  "C09": dict(
    engine="rules",
-   text="Kernel-checked: (model) a validation pass that applies a rule to every node its traversal reaches rejects a type as soon as any sub-term breaks the rule - directly, inside generic arguments, optionals, union cases, vectors, arrays, map keys/values, at any depth, for every rule; (facts regenerated from the current source by go/types+go/ast) every field of every dsl node struct that can hold child nodes is walked by VisitChildren except the listed derived back-references; all passes implementing the documented rules are in Validate's pipeline; errors of imported packages and previous versions are returned (from C11). Tied to the code by injecting one violation of each documented rule (names, casing, duplicates, unknown types, generic arity, unused type parameters, ill-formed unions and tags, streams outside steps, map keys, enum/flag values and bases, array dimensions, ill-typed computed fields, reference cycles through aliases / containers / local and imported generic arguments) into valid random packages at every kind of position (field, step, stream items, alias; direct, optional, vector, array, map value, union case, generic argument, nested) and placement (main file, second file, imported package, previous version): yardl validate must exit non-zero and name the offending file.",
-   note="Trusted: Lean kernel; the fact extractor (go/types) and the allow-list of derived back-reference fields; the injection generator. The individual rule predicates are not modelled (each is exercised by the matrix). Three defects fixed (nested streams in steps, union tags in generic arguments, diagnostics without file).",
-   technique="Lean 4 proof (traversal completeness over the surface type) + kernel-checked facts regenerated from source + rule-violation injection matrix",
+   text="Kernel-checked: (model) a validation pass that applies a rule to every node its traversal reaches rejects a type as soon as any sub-term breaks the rule - directly, inside generic arguments, optionals, union cases, vectors, arrays, map keys/values, at any depth, for every rule; (facts regenerated from the current source by go/types+go/ast) every field of every dsl node struct that can hold child nodes is walked by VisitChildren except the listed derived back-references; all passes implementing the documented rules are in Validate's pipeline; errors of imported packages and previous versions are returned (from C11); (model of the rules themselves) the union / map / array rules as one predicate per type node (null first and never alone, no optional or union directly inside one, no two cases equal under TypesEqual, camelCase distinct tags with derived tags only for plain names, scalar primitive map keys, array dimension names and lengths), and a node breaking them is rejected wherever it occurs. Tied to the code by judging random types over primitive names (40% rule-breaking) with yardl validate and with the model (verdicts must agree, no crash), and by injecting one violation of each documented rule (names, casing, duplicates, unknown types, generic arity, unused type parameters, ill-formed unions and tags, streams outside steps, map keys, enum/flag values and bases, array dimensions, ill-typed computed fields, reference cycles through aliases / containers / local and imported generic arguments) into valid random packages at every kind of position (field, step, stream items, alias; direct, optional, vector, array, map value, union case, generic argument, nested) and placement (main file, second file, imported package, previous version): yardl validate must exit non-zero and name the offending file.",
+   note="Trusted: Lean kernel; the fact extractor (go/types) and the allow-list of derived back-reference fields; the injection generator. The definition-level rule predicates (names, enums, computed fields) are not modelled (each is exercised by the matrix). Five defects fixed (two found while building the type-rules model), one open finding (map key rule not applied to generic instantiations) (nested streams in steps, union tags in generic arguments, diagnostics without file).",
+   technique="Lean 4 proof (traversal completeness + type-rule predicates over the surface type) + kernel-checked facts regenerated from source + differential correspondence of the type rules + rule-violation injection matrix",
    design="§7 C09"),
  "C10": dict(
    engine="frontend",
